@@ -220,6 +220,9 @@ func init() {
 				c.Fail("C32d/NewExtensionParserRule/archive->ArchiveParserRule", c.P.Pos(nr.Pos()), "the archive extension is no longer mapped to ArchiveParserRule under Name == \"archive\"")
 			}
 		}
+		c.Rule("C32e the oldest block of a batch reaches the decision: the archive rule reads the message's earliest requested block, which for a batch is the fold of the members' blocks in ParseMsg — every member (the first one included) enters both accumulators (same fold rule as C31b, which additionally decides whether an initial value seen by the combiner is neutral; stated here because a batch whose oldest block is lost is decided on the newest one)")
+		c.batchAccumulators(cl+"JsonRPCChainParser.ParseMsg", nil, "C32e")
+		c.batchAccumulators(cl+"TendermintChainParser.ParseMsg", nil, "C32e")
 		c.NotCovered("numeric truth of the table for concrete values; what RequestedBlock returns for a given message (C31 for batches); spec contents (whether an add-on defines the archive extension)")
 	})
 }
